@@ -21,7 +21,9 @@ RULE = (
     "characters from a pool with ASCII incl. newline, two-case non-ASCII letters, 3- and 4-byte "
     "characters and the multi-character-uppercase letter sharp s; all strings over the set up to length "
     "3 (2 for large sets) plus 4 strings sampled from the AST and their one-character mutations); "
-    "interegular_to_wfsa(p, charset)(s) > 0 <=> re.fullmatch(p, s); every state that can reach a final "
+    "interegular_to_wfsa(p, charset)(s) > 0 <=> re.fullmatch(p, s); in addition the support of the automaton "
+    "(read as data) is compared exactly, for strings of every length, with interegular's own automaton "
+    "restricted to the character set (product search; a witness is re-judged with re); every state that can reach a final "
     "state has arc + final mass 1, every other state mass 0 or 1; arc labels are single characters; non-trivial = "
     "matching and non-matching strings both exist and the pattern has a negated class, dot, negated "
     "escape or (?i); distinct = SHA-1 of the case"
@@ -35,7 +37,7 @@ ASSUMPTIONS = [
 
 
 def examples(tier):
-    return 960 if tier == "quick" else 16000
+    return 8000 if tier == "quick" else 60000
 
 
 @st.composite
@@ -109,7 +111,8 @@ def sample(draw, n, charset, icase=False, fuel=6):
 
 @st.composite
 def strategy(draw, tier="quick"):
-    k = draw(st.integers(2, 7))
+    # few characters make literals collide (loops re-entered by their own first character, ...)
+    k = draw(st.sampled_from([2, 2, 3, 3, 3, 3, 4, 4, 5, 7]))
     charset = draw(st.lists(st.sampled_from(POOL), min_size=k, max_size=k, unique=True))
     lits = charset + (["x"] if draw(st.integers(0, 5)) == 0 else [])
     ast = draw(regex(lits, 3))
@@ -129,6 +132,47 @@ def candidate_strings(case):
         out.append(s + cs[len(s) % len(cs)])
     allowed = set(cs)
     return list(dict.fromkeys(x for x in out if set(x) <= allowed))
+
+
+def fsm_vs_wfsa(fsm, A, charset):
+    """Exact comparison, over *all* strings on the character set, of the support of the library's
+    automaton (read as data) with interegular's own automaton for the pattern: breadth-first search
+    of the product of the two (subset construction on the library side).  Returns None when the
+    languages agree, else (shortest witness, whether the expression accepts it)."""
+    delta = {}
+    for q, a, r, w in A.arcs:
+        if w != 0:
+            delta.setdefault((q, a), set()).add(r)
+    final = {q for q, w in A.stop.items() if w != 0}
+
+    def step(s, ch):
+        if s is None:
+            return None
+        try:
+            c = fsm.alphabet[ch]
+        except KeyError:
+            return None
+        return fsm.map.get(s, {}).get(c)
+
+    init = (fsm.initial, frozenset(q for q, w in A.start.items() if w != 0))
+    seen = {init: ""}
+    queue = [init]
+    while queue:
+        s, Q = queue.pop(0)
+        w = seen[(s, Q)]
+        acc_f = s is not None and s in fsm.finals
+        if acc_f != bool(Q & final):
+            return w, acc_f
+        if len(seen) > 5000:
+            return None
+        for ch in sorted(charset):
+            nxt = (step(s, ch), frozenset(r for q in Q for r in delta.get((q, ch), ())))
+            if nxt[0] is None and not nxt[1]:
+                continue
+            if nxt not in seen:
+                seen[nxt] = w + ch
+                queue.append(nxt)
+    return None
 
 
 def check(case, ctx):
@@ -155,6 +199,7 @@ def check(case, ctx):
     # (?i:[c\\W]), lookaheads) neither can serve as the oracle; such a case is counted and its
     # acceptance is not judged (its normalisation still is).
     third_party = False
+    fsm = None
     try:
         import interegular
 
@@ -189,6 +234,18 @@ def check(case, ctx):
     A = ctx.call("read", RA.from_lib, F, m)
     if isinstance(A, LibRaised):
         return
+    # ---- exact language comparison (strings of any length) with the expression's own automaton
+    if fsm is not None and not third_party:
+        ctx.evals += 1
+        diff = fsm_vs_wfsa(fsm, A, charset)
+        if diff is not None:
+            w, accepted = diff
+            if (orc.fullmatch(w) is not None) != accepted:
+                ctx.cls("discard:interegular_disagrees_with_re")
+            elif accepted:
+                ctx.fail("accept|missing", f"pattern {pat!r} charset {sorted(charset)!r}: {w!r} matches but the automaton gives it weight 0 (exact comparison)")
+            else:
+                ctx.fail("accept|extra", f"pattern {pat!r} charset {sorted(charset)!r}: {w!r} does not match but the automaton accepts it (exact comparison)")
     pred = {}
     for q, a, r, w in A.arcs:
         if w != 0:
